@@ -84,3 +84,59 @@ pub fn publish_json(j: &Value) -> std::result::Result<String, String> {
     )?;
     out.data["mt"].as_str().map(|s| s.to_string()).ok_or_else(|| "no mt output".to_string())
 }
+
+/// generate plugin: the scenario (datafake schema) is the message payload, as in tests/end2end.rs
+pub fn generate(schema: &Value) -> std::result::Result<Value, String> {
+    let mut m = Message::from_value(schema);
+    let cfg = FunctionConfig::Custom {
+        name: "generate_mt".into(),
+        input: json!({"target": "sample_json"}),
+    };
+    let dl = DL.with(|d| d.clone());
+    let res = RT.with(|rt| rt.block_on(async { Generate.execute(&mut m, &cfg, dl).await }));
+    match res {
+        Ok(_) => Ok(m.data()["sample_json"].clone()),
+        Err(e) => Err(format!("{e:?}")),
+    }
+}
+
+/// publish -> validate -> parse on one message context, exactly the end2end workflow after generation
+pub struct Pipeline {
+    pub mt_text: std::result::Result<String, String>,
+    pub validation: std::result::Result<Value, String>,
+    pub parsed: std::result::Result<Value, String>,
+}
+
+pub fn pipeline(sample_json: &Value) -> Pipeline {
+    let mut m = Message::from_value(&json!({}));
+    *m.data_mut() = json!({"sample_json": sample_json});
+    m.invalidate_context_cache();
+    let dl = DL.with(|d| d.clone());
+    let mk = |name: &str, input: Value| FunctionConfig::Custom { name: name.into(), input };
+    let c_pub = mk("publish_mt", json!({"source": "sample_json", "target": "sample_mt"}));
+    let c_val = mk("validate_mt", json!({"source": "sample_mt", "target": "validation_result"}));
+    let c_par = mk("parse_mt", json!({"source": "sample_mt", "target": "mt_json"}));
+    RT.with(|rt| {
+        rt.block_on(async {
+            let p = Publish.execute(&mut m, &c_pub, dl.clone()).await;
+            let mt_text = match p {
+                Ok(_) => m.data()["sample_mt"].as_str().map(|s| s.to_string()).ok_or_else(|| "publish wrote no string".to_string()),
+                Err(e) => Err(format!("{e:?}")),
+            };
+            if mt_text.is_err() {
+                return Pipeline { mt_text, validation: Err("not run".into()), parsed: Err("not run".into()) };
+            }
+            let v = Validate.execute(&mut m, &c_val, dl.clone()).await;
+            let validation = match v {
+                Ok(_) => Ok(m.data()["validation_result"].clone()),
+                Err(e) => Err(format!("{e:?}")),
+            };
+            let pr = Parse.execute(&mut m, &c_par, dl.clone()).await;
+            let parsed = match pr {
+                Ok(_) => Ok(m.data()["mt_json"].clone()),
+                Err(e) => Err(format!("{e:?}")),
+            };
+            Pipeline { mt_text, validation, parsed }
+        })
+    })
+}
